@@ -1,5 +1,6 @@
 import AdeuModel.Lemmas.Engine
 import AdeuModel.Lemmas.Attr
+import AdeuModel.Lemmas.AttrHistory
 /-
 C09 — saved output is structurally valid revision and comment markup (model-level clauses).
 -/
@@ -32,6 +33,16 @@ theorem C09_marks_attributed (s : Sess) (edits : List HEdit) :
       (x.author = some s.author ∧ x.date = some s.date ∧
         ∃ k, s.nextRev < k ∧ k ≤ (Doc.applyEdits s edits).1.nextRev ∧ x.id = natStr k) :=
   (RevOk_applyEdits s edits).revs
+
+/-- The ids of the marks a session adds lie above every numeric revision id the opened document carries in the
+stories the engine reaches (main part, reachable headers / footers): a mark created by the session never shares its
+id with a mark that was already there — ids stay unique across what was there and what is new. -/
+theorem C09_new_ids_above_old (d : Document) (author date : Str) (edits : List HEdit) (x : Rev)
+    (hx : x ∈ revsDoc (Doc.applyEdits (Sess.open d author date) edits).1.doc)
+    (hnew : x ∉ revsDoc (Sess.open d author date).doc) :
+    ∃ k, x.id = natStr k ∧ x.author = some author ∧ x.date = some date ∧
+      ∀ bs ∈ docParts (normalize d), ∀ n ∈ allNodesBlocks bs, ∀ rev k', revOf n = some rev → strNat? rev.id = some k' → k' < k :=
+  new_ids_above_old d author date edits x hx hnew
 
 /-- A new comment is listed exactly once in the comments part and once in each auxiliary part. -/
 theorem C09_comment_parts (s : Sess) (text : Str) (parent : Option Str) :
